@@ -532,24 +532,24 @@ satisfying `Pre`, for every fault, transaction id and retry cap: when `phase1` e
 phase 2) or by raising at the failing call — every node that was loadable at the start is still loadable with the
 same blob id and the same version. -/
 theorem phase1_keeps_views {s0 : State} {w : WS} {fresh0 : List (UUID × UUID)} (pre : Pre s0 w fresh0)
-    (fault : Option Fault) (tid : Tid) (n : Nat) :
-    match phase1 w n { s := s0, tid := tid, fault := fault, fresh := fresh0 } with
+    (fault : Option Fault) {cs0 : Step} (tid : Tid) (n : Nat) :
+    match phase1 w n { s := s0, tid := tid, fault := fault, fresh := fresh0, cs := cs0 } with
     | .ok (_, r) => ∀ lid, (s0.view lid).isSome → r.s.view lid = s0.view lid
     | .error r => ∀ lid, (s0.view lid).isSome → r.s.view lid = s0.view lid := by
-  have h := pres_phase1 pre n { s := s0, tid := tid, fault := fault, fresh := fresh0 }
+  have h := pres_phase1 pre n { s := s0, tid := tid, fault := fault, fresh := fresh0, cs := cs0 }
     ⟨SInv.init s0 w fresh0 pre, fun _ hp => hp⟩
-  cases hr : phase1 w n { s := s0, tid := tid, fault := fault, fresh := fresh0 } with
+  cases hr : phase1 w n { s := s0, tid := tid, fault := fault, fresh := fresh0, cs := cs0 } with
   | error r => rw [hr] at h; exact h.1.stable
   | ok p => obtain ⟨a, r⟩ := p; rw [hr] at h; exact h.1.stable
 
 /-- **A commit that fails in phase 1 (error or conflict round) leaves every node as it was**, after its live
 rollback has run — for every fault position and kind, including faults that hit the rollback's own calls. -/
 theorem commit_phase1_failure_keeps_views {s0 : State} {w : WS} {fresh0 : List (UUID × UUID)} (pre : Pre s0 w fresh0)
-    (fault : Option Fault) (tid : Tid) (n : Nat) (r1 : Run)
-    (hf : phase1 w n { s := s0, tid := tid, fault := fault, fresh := fresh0 } = .error r1) :
+    (fault : Option Fault) {cs0 : Step} (tid : Tid) (n : Nat) (r1 : Run)
+    (hf : phase1 w n { s := s0, tid := tid, fault := fault, fresh := fresh0, cs := cs0 } = .error r1) :
     ∀ lid, (s0.view lid).isSome →
-      (commit w n { s := s0, tid := tid, fault := fault, fresh := fresh0 }).2.s.view lid = s0.view lid := by
-  have h := pres_phase1 pre n { s := s0, tid := tid, fault := fault, fresh := fresh0 }
+      (commit w n { s := s0, tid := tid, fault := fault, fresh := fresh0, cs := cs0 }).2.s.view lid = s0.view lid := by
+  have h := pres_phase1 pre n { s := s0, tid := tid, fault := fault, fresh := fresh0, cs := cs0 }
     ⟨SInv.init s0 w fresh0 pre, fun _ hp => hp⟩
   rw [hf] at h
   unfold commit
